@@ -50,6 +50,8 @@ def run(rec, cfg):
         if root is None:
             continue
         rec.arm("start:" + src)
+        if rng.random() < 0.3:
+            D.inplace_chain(rec, root, use, rng, steps=rng.randint(2, 6), big=big)
         k += 1
         if k % 4 == 0 and not big:
             # episode: dangling parent pointers / aliased subtrees show up on later steps
